@@ -446,7 +446,7 @@ func (runInfo *runInfoStruct) makeCallArgs(rt reflect.Type, isRunVMFunction bool
 		if isRunVMFunction {
 			args = append(args, reflect.ValueOf(detachValue(runInfo.rv)))
 		} else {
-			runInfo.rv, runInfo.err = convertReflectValueToType(runInfo.rv, rt.In(indexInReal))
+			runInfo.rv, runInfo.err = convertReflectValueToType(detachValue(runInfo.rv), rt.In(indexInReal))
 			if runInfo.err != nil {
 				runInfo.err = newStringError(callExpr.SubExprs[indexExpr],
 					"function wants argument type "+rt.In(indexInReal).String()+" but received type "+runInfo.rv.Type().String())
@@ -474,7 +474,7 @@ func (runInfo *runInfoStruct) makeCallArgs(rt reflect.Type, isRunVMFunction bool
 		if isRunVMFunction {
 			args = append(args, reflect.ValueOf(detachValue(runInfo.rv)))
 		} else {
-			runInfo.rv, runInfo.err = convertReflectValueToType(runInfo.rv, rt.In(indexInReal))
+			runInfo.rv, runInfo.err = convertReflectValueToType(detachValue(runInfo.rv), rt.In(indexInReal))
 			if runInfo.err != nil {
 				runInfo.err = newStringError(callExpr.SubExprs[indexExpr],
 					"function wants argument type "+rt.In(indexInReal).String()+" but received type "+runInfo.rv.Type().String())
@@ -512,9 +512,9 @@ func (runInfo *runInfoStruct) makeCallArgs(rt reflect.Type, isRunVMFunction bool
 		indexSlice := 0
 		for indexInReal < numInReal {
 			if isRunVMFunction {
-				args = append(args, reflect.ValueOf(spread.Index(indexSlice)))
+				args = append(args, reflect.ValueOf(detachValue(spread.Index(indexSlice))))
 			} else {
-				runInfo.rv, runInfo.err = convertReflectValueToType(spread.Index(indexSlice), rt.In(indexInReal))
+				runInfo.rv, runInfo.err = convertReflectValueToType(detachValue(spread.Index(indexSlice)), rt.In(indexInReal))
 				if runInfo.err != nil {
 					runInfo.err = newStringError(callExpr.SubExprs[indexExpr],
 						"function wants argument type "+rt.In(indexInReal).String()+" but received type "+runInfo.rv.Type().String())
@@ -548,7 +548,7 @@ func (runInfo *runInfoStruct) makeCallArgs(rt reflect.Type, isRunVMFunction bool
 		if isRunVMFunction {
 			args = append(args, reflect.ValueOf(detachValue(runInfo.rv)))
 		} else {
-			runInfo.rv, runInfo.err = convertReflectValueToType(runInfo.rv, rt.In(indexInReal))
+			runInfo.rv, runInfo.err = convertReflectValueToType(detachValue(runInfo.rv), rt.In(indexInReal))
 			if runInfo.err != nil {
 				runInfo.err = newStringError(callExpr.SubExprs[indexExpr],
 					"function wants argument type "+rt.In(indexInReal).String()+" but received type "+runInfo.rv.Type().String())
@@ -569,7 +569,7 @@ func (runInfo *runInfoStruct) makeCallArgs(rt reflect.Type, isRunVMFunction bool
 			if runInfo.err != nil {
 				return nil, false
 			}
-			runInfo.rv, runInfo.err = convertReflectValueToType(runInfo.rv, sliceType)
+			runInfo.rv, runInfo.err = convertReflectValueToType(detachValue(runInfo.rv), sliceType)
 			if runInfo.err != nil {
 				runInfo.err = newStringError(callExpr.SubExprs[indexExpr],
 					"function wants argument type "+rt.In(indexInReal).String()+" but received type "+runInfo.rv.Type().String())
